@@ -17,7 +17,9 @@ import (
 type TermBuilder struct {
 	P     *Program
 	Names map[ssa.Value]string // placeholders for leaves (parameters, loop-carried values, elements)
-	depth int
+	// Bounds keeps slice bounds and computed element positions in the term (slice(X,lo,hi), elem(X,i))
+	Bounds bool
+	depth  int
 }
 
 func NewTermBuilder(p *Program) *TermBuilder {
@@ -117,7 +119,17 @@ func (t *TermBuilder) Term(v ssa.Value) string {
 		if x.Low == nil && x.High == nil {
 			return t.Term(x.X)
 		}
-		return "slice(" + t.Term(x.X) + ")"
+		if !t.Bounds {
+			return "slice(" + t.Term(x.X) + ")"
+		}
+		lo, hi := "", ""
+		if x.Low != nil {
+			lo = t.Term(x.Low)
+		}
+		if x.High != nil {
+			hi = t.Term(x.High)
+		}
+		return "slice(" + t.Term(x.X) + "," + lo + "," + hi + ")"
 	case *ssa.UnOp:
 		if x.Op == token.MUL {
 			switch a := x.X.(type) {
@@ -135,12 +147,12 @@ func (t *TermBuilder) Term(v ssa.Value) string {
 			case *ssa.FieldAddr:
 				return t.Term(a.X) + "." + fieldName(a.X.Type(), a.Field)
 			case *ssa.IndexAddr:
-				return "elem(" + t.Term(a.X) + ")"
+				return t.elemTerm(a.X, a.Index)
 			}
 		}
 		return "unop(" + x.Op.String() + "," + t.Term(x.X) + ")"
 	case *ssa.Index:
-		return "elem(" + t.Term(x.X) + ")"
+		return t.elemTerm(x.X, x.Index)
 	case *ssa.Extract:
 		if nx, ok := x.Tuple.(*ssa.Next); ok {
 			if rg, ok := nx.Iter.(*ssa.Range); ok && x.Index == 2 {
@@ -163,6 +175,15 @@ func (t *TermBuilder) Term(v ssa.Value) string {
 		// array literal used for varargs etc.
 		return "alloc"
 	case *ssa.Phi:
+		if t.Bounds && !InCycle(x.Block()) {
+			// a join of alternatives (not loop-carried): keep the alternatives
+			var alts []string
+			for _, e := range x.Edges {
+				alts = append(alts, t.Term(e))
+			}
+			sort.Strings(alts)
+			return "alt(" + strings.Join(alts, ",") + ")"
+		}
 		return "φ" + x.Name()
 	case *ssa.MakeSlice:
 		return "φmake" + x.Name()
@@ -170,6 +191,18 @@ func (t *TermBuilder) Term(v ssa.Value) string {
 		return t.callTerm(x)
 	}
 	return fmt.Sprintf("⊤%T", v)
+}
+
+// elemTerm: an element selected by a loop variable is "some element" (elem(X)); a computed position is kept.
+func (t *TermBuilder) elemTerm(x, idx ssa.Value) string {
+	if !t.Bounds {
+		return "elem(" + t.Term(x) + ")"
+	}
+	it := t.Term(idx)
+	if strings.Contains(it, "φ") || strings.Contains(it, "⊤") {
+		return "elem(" + t.Term(x) + ")"
+	}
+	return "elem(" + t.Term(x) + "," + it + ")"
 }
 
 func (t *TermBuilder) callTerm(c *ssa.Call) string {
@@ -310,6 +343,7 @@ func (t *TermBuilder) callTerm(c *ssa.Call) string {
 		if n == 1 && len(ret.Results) == 1 {
 			sub := NewTermBuilder(t.P)
 			sub.depth = t.depth
+			sub.Bounds = t.Bounds
 			actuals := c.Call.Args
 			for i, prm := range cal.Params {
 				if i < len(actuals) {
